@@ -1,5 +1,5 @@
 /-
-  Every script operation (with a clock that does not run backwards) and every history
+  Every script operation — including the clock operations in both directions — and every history
   preserve `Inv`.
 -/
 import Mhd.Proofs.TmoRound
@@ -63,7 +63,7 @@ theorem inv_resumeRequest {d : Daemon} (h : Inv d) (i : Id) : Inv (resumeRequest
     | exact h1.connsS | exact h1.suspS | exact h1.newT | exact h1.disjNew | exact h1.disjClean | exact h1.laLe
     | exact h1.usedAll | exact h1.ready | exact h1.nonEpoll | exact h1.sorted | exact h1.tmoB | exact h1.dtmoB
 
-theorem inv_step {v : Variant} (hv : Fixed v) {d : Daemon} (h : Inv d) (o : Op) (hm : o.monotone)
+theorem inv_step {v : Variant} (hv : Fixed v) {d : Daemon} (h : Inv d) (o : Op)
     (r : Daemon × List Event) (hr : step v d o = some r) : Inv r.1 := by
   cases o with
   | arrive i =>
@@ -87,7 +87,11 @@ theorem inv_step {v : Variant} (hv : Fixed v) {d : Daemon} (h : Inv d) (o : Op) 
     · cases hr; exact inv_clientClose h i
     · cases hr
   | tick ms => simp only [step] at hr; cases hr; exact inv_tick h ms
-  | tickback ms => exact absurd hm (by simp [Op.monotone])
+  | tickback ms =>
+    simp only [step] at hr
+    split at hr
+    · rename_i hc; cases hr; exact inv_tickback h ms hc
+    · cases hr
   | setTimeout i s =>
     simp only [step] at hr
     split at hr
@@ -106,16 +110,13 @@ theorem inv_step {v : Variant} (hv : Fixed v) {d : Daemon} (h : Inv d) (o : Op) 
     · cases hr
   | round => simp only [step] at hr; cases hr; exact inv_round hv h
 
-theorem inv_run {v : Variant} (hv : Fixed v) : ∀ (ops : List Op) (d : Daemon), Inv d →
-    (∀ o, o ∈ ops → o.monotone) → Inv (run v d ops)
-  | [], d, h, _ => by simpa [run] using h
-  | o :: os, d, h, hm => by
+theorem inv_run {v : Variant} (hv : Fixed v) : ∀ (ops : List Op) (d : Daemon), Inv d → Inv (run v d ops)
+  | [], d, h => by simpa [run] using h
+  | o :: os, d, h => by
     unfold run
-    have ho := hm o (List.mem_cons_self ..)
-    have hos : ∀ o', o' ∈ os → o'.monotone := fun o' h' => hm o' (List.mem_cons_of_mem _ h')
     split
     · rename_i r hr
-      exact inv_run hv os r.1 (inv_step hv h o ho r hr) hos
-    · exact inv_run hv os d h hos
+      exact inv_run hv os r.1 (inv_step hv h o r hr)
+    · exact inv_run hv os d h
 
 end Mhd.Tmo
